@@ -548,10 +548,20 @@ class State:
             val = (RF.const(0) - R) / C
             if atom in val.atoms() or self._mentions(val, atom, 0):
                 continue        # would define the atom through a rounding of itself
+            if atom[0] in ("mu", "rho", "Qm", "sf", "pw10", "beta") and not self._positive_monomial(val):
+                continue        # scales and quanta are positive: only a positive monomial can define them
             self.add_subst(atom, val)
             return True
         self.notes.append(f"unused equality fact {x!r} == {y!r}")
         return False
+
+    def _positive_monomial(self, rf: RF) -> bool:
+        if not (rf.d.is_const() and rf.n.is_monomial()):
+            return False
+        (m, c), = rf.n.t.items()
+        if c / rf.d.const_value() <= 0:
+            return False
+        return all(a[0] in ("mu", "rho", "Qm", "sf", "pw10", "beta", "const") for a, _ in m)
 
     def _mentions(self, rf: RF, atom, depth) -> bool:
         if depth > 12:
